@@ -39,6 +39,14 @@ inductive ReprMode where
   | other (s : String)
   deriving DecidableEq, Repr, Inhabited
 
+/-- typecheck.go `comparison`: which pairs of channel types escape the "non interface types must be really equal" test -/
+inductive ChanCmp where
+  | identical          -- none (until 6110e8a: `chan T == <-chan T` was rejected, F12-11)
+  | unnamedPair        -- 6110e8a: any two channel types one of which is not a defined type (accepted `chan int == chan N`)
+  | sameElemOneBidir   -- 61b9210 `chanComparable`: not both defined, at least one bidirectional, identical element types
+  | other (s : String)
+  deriving DecidableEq, Repr, Inhabited
+
 structure OpFacts where
   /-- typecheck.go `unaryOpPredicates`: action ↦ disjunction of predicate names -/
   unary : List (Action × List PredName)
@@ -60,6 +68,13 @@ structure OpFacts where
   /-- typecheck.go `assignment`: an untyped operand assigned to an interface type is converted to its default type
       (`ctyp`) and then checked against the interface type itself (385eb77); before, `typ` itself was replaced -/
   constIfaceChecked : Bool
+  /-- typecheck.go `comparison`: the channel pairs exempted from the "non interface types must be really equal" test -/
+  cmpChanExempt : ChanCmp
+  /-- typecheck.go `shift`: the shifted untyped operand is asserted to be a go/constant value only when it is one
+      (1122c63; before, `true << x` panicked) -/
+  shiftBoolGuard : Bool
+  /-- typecheck.go `shift`, arm `isInt(t1)`: a negative constant count of a signed type is an error (5556d48) -/
+  shiftNegChecked : Bool
   deriving DecidableEq, Repr
 
 def lookup {α β : Type} [DecidableEq α] (k : α) : List (α × β) → Option β
@@ -188,6 +203,26 @@ structure TcFacts where
   convTypedConstChecked : Bool
   /-- typecheck.go arrayLitExpr: the bounds test of a positional element -/
   arrayLitBound : ArrLitIdx
+  /-- cfg.go binaryExpr post-order: `case aAdd, aSub, aMul, aQuo, aAnd, aOr, aXor, aAndNot:` gives the node the type of
+      its typed operand, whatever the type propagated from the destination (2988c87) -/
+  opTypeFromOperand : Bool
+  /-- cfg.go binaryExpr post-order: the untyped shifted operand of a non-constant shift is checked against the type the
+      context gives to the shift (b1f87d3) -/
+  shiftUntypedCtx : Bool
+  /-- typecheck.go `index`: the bound test is skipped for `max < 0` only (5556d48; before: `max < 1`, so an array of
+      length 0 was not checked) -/
+  indexZeroLenChecked : Bool
+  /-- typecheck.go arrayLitExpr: `length = -1` for a slice literal (5556d48) -/
+  arrayLitSliceUnbounded : Bool
+  /-- 52cb9ff: cfg.go defineStmt reports `v := nil`, `convertibleTo` answers false for nil, `isBool` is nil-safe,
+      `typeAssertionExpr` tests `rt == nil` -/
+  nilOperandsReported : Bool
+  /-- typecheck.go conversion: `case c == nil && n.rval.IsValid() && isNumber(n.typ.TypeOf()) && isNumber(typ.TypeOf())`
+      accepts the constant conversion of a typed numeric constant (8b84ab3) -/
+  convTypedNumericOk : Bool
+  /-- typecheck.go callValue: the operand of a conversion is a single-value context
+      (`anc.child[0] != c && !anc.child[0].isType(check.scope)`, 29b7aa6) -/
+  callValueConvChecked : Bool
   deriving DecidableEq, Repr
 
 def CmpTok.eval : CmpTok → Nat → Nat → Bool
@@ -469,7 +504,13 @@ def comparisonY (F : OpFacts) (op : CmpOp) (x y : Opnd) : Res Opnd := do
   let a ← assignableToY F t0 t1 x.rv
   let b ← if a then pure true else assignableToY F t1 t0 y.rv
   if !(a || b) then .err
-  if !t0.isIface && !t1.isIface && !t0.isNil && !t1.isNil && t0.isUntyped == t1.isUntyped && t0 != t1 && !typeDefinedT t0 t1 then .err
+  if !t0.isIface && !t1.isIface && !t0.isNil && !t1.isNil && t0.isUntyped == t1.isUntyped && t0 != t1 && !typeDefinedT t0 t1 &&
+      -- channel pairs exempted (every channel type of the fragment is a type literal, never a defined type)
+      !(match F.cmpChanExempt, t0, t1 with
+        | .unnamedPair, .chan _ _, .chan _ _ => true
+        | .sameElemOneBidir, .chan d0 e0, .chan d1 e1 => (d0 == .both || d1 == .both) && e0 == e1
+        | _, _, _ => false) then .err
+  if (match F.cmpChanExempt with | .other _ => true | _ => false) then .abstain
   -- the universe scope holds two type objects for uint8, `uint8` and `byte` (string indexing yields `byte`, and so does a
   -- variable defined from it); `typeDefined` compares pointers, so `type N uint8` is "defined from" the first only.
   -- Which object an operand carries is not tracked: a defined type over uint8 against uint8 is outside the description.
@@ -522,7 +563,12 @@ def arithY (T : TcFacts) (op : BinOp) (assignForm : Bool) (z : Option Ty) (x y :
   | some k =>
     if binaryY F op.op.action k then
       .ok ⟨(match z with
-            | some t => if op == .rem then binResultTy F x' y' else t
+            | some t =>
+              if op == .rem then binResultTy F x' y'
+              -- 2988c87: the node takes the type of its typed operand, whatever the propagated type
+              else if T.opTypeFromOperand && !x'.ty.isUntyped then x'.ty
+              else if T.opTypeFromOperand && !y'.ty.isUntyped then y'.ty
+              else t
             | none => binResultTy F x' y'), .none⟩
     else .err
   | none => .err
@@ -573,7 +619,7 @@ def shiftCheckY (F : OpFacts) (x y : Opnd) : Res Unit := do
       | .none => pure false
       | .const (.int _) | .const (.float _ false) => pure true
       | .const _ => pure false
-      | _ => Res.crash                      -- `.(constant.Value)` of a plain Go bool
+      | _ => if F.shiftBoolGuard then pure false else Res.crash   -- `.(constant.Value)` of a plain Go bool (until 1122c63)
     else pure false)
   if !(leftConstInt || isIntT F x.ty) then .err
   if y.ty.isUntyped then
@@ -581,11 +627,19 @@ def shiftCheckY (F : OpFacts) (x y : Opnd) : Res Unit := do
     | .ok _ => .ok ()
     | .crash => .crash
     | _ => .err
-  else if isIntT F y.ty then .ok () else .err
+  else if isIntT F y.ty then
+    -- 5556d48: a negative constant count of a signed integer type
+    (match y.rv with
+     | .typed (some v) => if F.shiftNegChecked && !kindIs F .isUint y.ty && v < 0 then .err else .ok ()
+     | _ => .ok ())
+  else .err
 
 def shiftY (T : TcFacts) (_op : ShOp) (x y : Opnd) : Res Opnd := do
   if bothConstant x y then .abstain
   shiftCheckY T.ops x y
+  -- b1f87d3: an untyped constant shifted by a non-constant count is checked against the type its context gives to the
+  -- shift node (propagated destination type, or the default type in a declaration): not described (nor by the specification side)
+  if T.shiftUntypedCtx && x.ty.isUntyped && x.isConst then .abstain
   .ok ⟨x.ty, .none⟩
 
 /-- `typecheck.unaryExpr` -/
@@ -616,14 +670,20 @@ def convY (T : TcFacts) (typ : Ty) (x : Opnd) : Res Opnd := do
     | .typed (some v), some k => if !representableConstY F (.int v) k then .err
     | .typed none, _ => if isIntT F typ && isFloatT F x.ty then .err
     | _, _ => pure ()
+  -- 52cb9ff: `convertibleTo` answers false for nil after the assignability test (before: `Kind()` of the nil reflect.Type)
+  let convertible : Res Bool :=
+    if T.nilOperandsReported && x.ty.isNil then assignableToY F x.ty typ x.rv else convertibleToY F x.ty typ x.rv
   let ok ← (match c with
     | some c =>
       if isConstTypeT F typ then
         match typ.kind? with
         | some k => pure (representableConstY F c k || (isIntT F x.ty && predOk F .isString k))
         | none => pure false
-      else convertibleToY F x.ty typ x.rv
-    | none => convertibleToY F x.ty typ x.rv)
+      else convertible
+    | none => do
+      let b ← convertible
+      -- 8b84ab3: a typed numeric constant converted to a numeric type (representable, as checked above): a constant conversion
+      pure (b || (T.convTypedNumericOk && (match x.rv with | .typed _ => true | _ => false) && isNumberT F x.ty && isNumberT F typ)))
   if !ok then .err
   if x.ty.isUntyped then
     match c with
@@ -652,7 +712,7 @@ def indexCheckY (T : TcFacts) (i : Opnd) (max : Option Nat) : Res Unit := do
   | some v =>
     if T.indexNegChecked && v < 0 then .err           -- "index must not be negative" (03fb34b)
     else match max with
-      | some m => if m ≥ 1 && v ≥ m then .err else .ok ()
+      | some m => if (T.indexZeroLenChecked || m ≥ 1) && v ≥ m then .err else .ok ()   -- `max < 0` since 5556d48, `max < 1` before
       | none => .ok ()
 
 /-- cfg.go `case indexExpr` -/
@@ -682,7 +742,7 @@ def indexY (T : TcFacts) (a i : Opnd) : Res Opnd := do
   | .struct _ _ _ => bad
   | .iface _ _ => bad
   | .untyped _ => .abstain
-  | .nil => .abstain
+  | .nil => .crash                                 -- `t.TypeOf()` is the nil reflect.Type: `rt.Kind()` panics
 
 /-- `typecheck.arguments` / `argument` for non-variadic interpreted functions, arguments not spread -/
 def callArgsY (T : TcFacts) (params : List STy) : Nat → List Opnd → Res Unit
@@ -704,8 +764,8 @@ def callY (T : TcFacts) (params : List STy) (args : List Opnd) : Res Unit := do
 def callValueY (T : TcFacts) (conv : Bool) (rets : List STy) : Res Opnd :=
   match rets with
   | [r] => .ok ⟨.s r, .none⟩
-  | [] => if !T.callValueChecked then .abstain else if conv then .crash else .err
-  | _ => .abstain
+  | [] => if !T.callValueChecked then .abstain else if conv && !T.callValueConvChecked then .crash else .err
+  | _ => if conv && T.callValueChecked && T.callValueConvChecked then .err else .abstain   -- 29b7aa6: a conversion takes a single value
 
 /-- `assignExpr` for `var v T = e` (`decl`) and `v = e`. For `v = e` whose source is a non-constant
     unary / binary operator node, the post-order shortcut of cfg.go ("store the result directly at the
@@ -742,7 +802,7 @@ def assignY (T : TcFacts) (decl : Bool) (sh : Shape) (dst : Ty) (x : Opnd) : Res
 
 def defineY (T : TcFacts) (x : Opnd) : Res Ty :=
   match x.ty with
-  | .nil => .crash
+  | .nil => if T.nilOperandsReported then .err else .crash      -- "use of untyped nil in assignment" (52cb9ff)
   | t => do
     let d := defaultTypeY t
     assignmentY T.ops x d
@@ -776,6 +836,7 @@ def sendY (T : TcFacts) (c v : Opnd) : Res Unit := do
     must be found in the asserted type (no type of the fragment is a binary type: `isBin` is false; all methods
     of the fragment have value receivers and the signature `func()`, so the receiver and signature tests pass) -/
 def assertY (T : TcFacts) (typ : Ty) (x : Opnd) : Res Opnd := do
+  if T.nilOperandsReported && x.ty.isNil then .err          -- `rt == nil` (52cb9ff)
   let _ ← kindOf x.ty
   if !x.ty.isIface then .err
   else if x.ty.methods.isEmpty || typ.isIface then .ok ⟨typ, .none⟩
@@ -788,6 +849,7 @@ def assertY (T : TcFacts) (typ : Ty) (x : Opnd) : Res Opnd := do
 /-- cfg.go ifStmt*/forStmt*: `!isBool(cond.typ)` sets the error; when the clause does not leave at that point
     (`condBoolGuarded = false`, the tree before the repair of F11) `cond.rval.Bool()` runs on the constant and panics -/
 def condY (T : TcFacts) (c : Opnd) : Res Unit := do
+  if T.nilOperandsReported && c.ty.isNil then .err          -- `isBool` is nil-safe (52cb9ff): "non-bool used as condition"
   let k ← kindOf c.ty
   let isBool := k == .bool
   match c.rv with
@@ -832,7 +894,8 @@ def arrayLitY (T : TcFacts) (isArray : Bool) (length : Nat) : List LitElem → (
   | [], _, _, _ => .ok ()
   | .keyed k :: rest, i, _, vis =>
     if k < 0 then (if T.indexNegChecked then .err else .abstain)
-    else if length ≥ 1 && k.toNat ≥ length then .err
+    -- `check.index(key, max)` with max = the array length, or for a slice literal -1 (5556d48) / 0 (before)
+    else if (if isArray || !T.arrayLitSliceUnbounded then (T.indexZeroLenChecked || length ≥ 1) && k.toNat ≥ length else false) then .err
     else if vis.contains k.toNat then .err
     else arrayLitY T isArray length rest (i + 1) (k.toNat + 1) (k.toNat :: vis)
   | .pos :: rest, i, index, vis =>
